@@ -529,15 +529,20 @@ func ApplyOverlapToChunks(chunks []*Chunk, config OverlapConfig) []*ChunkWithOve
 	generator := NewOverlapGeneratorWithConfig(config)
 	result := make([]*ChunkWithOverlap, len(chunks))
 
+	// The text of the previous chunk as it was given: the loop below writes the
+	// overlapped text back into the chunks, and the overlap handed on must come
+	// from a chunk's own text, not from what that chunk inherited
+	prevOwnText := ""
+
 	for i, chunk := range chunks {
+		ownText := chunk.Text
 		result[i] = &ChunkWithOverlap{
 			Chunk: chunk,
 		}
 
 		if i > 0 && config.Strategy != OverlapNone {
 			// Generate overlap from previous chunk
-			prevChunk := chunks[i-1]
-			overlap := generator.GenerateOverlap(prevChunk.Text)
+			overlap := generator.GenerateOverlap(prevOwnText)
 
 			if overlap.Text != "" {
 				result[i].OverlapPrefix = overlap.Text
@@ -558,6 +563,8 @@ func ApplyOverlapToChunks(chunks []*Chunk, config OverlapConfig) []*ChunkWithOve
 				result[i].Chunk.Metadata.EstimatedTokens = len(result[i].Chunk.Text) / 4
 			}
 		}
+
+		prevOwnText = ownText
 	}
 
 	return result
